@@ -16,6 +16,7 @@ Secs == {Seg(<<5, 0>>, FALSE), Seg(<<2, 3>>, TRUE),
          [k |-> "bezier", pts |-> << <<1, 0>>, <<2, 1>>, <<3, 3>>, <<4, 6>> >>, rel |-> TRUE],
          [k |-> "arc", rx |-> 4, ry |-> 4, a0 |-> 0, a1 |-> 90, rot |-> 0],
          [k |-> "arc", rx |-> 6, ry |-> 2, a0 |-> 90, a1 |-> -90, rot |-> 0],
+         [k |-> "arc", rx |-> 6, ry |-> 2, a0 |-> 10, a1 |-> 100, rot |-> 20],      \* rotated axes
          [k |-> "turn", r |-> 3, a |-> -90],
          [k |-> "parametric", f |-> "wave", rel |-> TRUE],
          [k |-> "interpolation", pts |-> << <<2, 2>>, <<5, 1>> >>, rel |-> TRUE]}
